@@ -13,6 +13,7 @@ RANK_MAX = 520          # must match RankMax in spec/gf2/Gf2Trace.cfg
 FULL = ["MC_Gauss_0x3.cfg", "MC_Gauss_1x4.cfg", "MC_Gauss_5x2.cfg", "MC_Gauss_2x5.cfg", "MC_Gauss_3x4.cfg"]
 QUICK = ["MC_Gauss_4x4.cfg", "MC_Gauss_3x5.cfg", "MC_Gauss_2x7.cfg", "MC_Gauss_3x6.cfg"]
 THOROUGH = ["MC_Gauss_4x5.cfg", "MC_Gauss_5x4.cfg"]
+EMIT = ["MC_Gauss_emit_3x4.cfg", "MC_Gauss_emit_4x3.cfg", "MC_Gauss_emit_2x5.cfg"]
 
 
 def _weight(e):
@@ -32,112 +33,51 @@ def _size_class(e):
         else "2001..3500" if c <= 3500 else ">3500"
 
 
-def _tamper(evs):
-    """Vacuity self-test of the trace specification: small recorded events are damaged in ways that
-    break exactly one clause each; TLC must reject every one of them with the expected tag.  (Python
-    only prepares the inputs and compares tags; the judgement is TLC's.)"""
-    def pick(pred):
-        for e in evs:
-            if "outcome" not in e and e["ncols"] <= 40 and pred(e):
-                return copy.deepcopy(e)
-        return None
-
+def _selftest_events():
+    """Vacuity self-test of the trace specification: hand-written events (independent of the code under
+    test), one valid and the others damaged so that exactly one clause should fire; TLC must reject each
+    with the expected tag.  (Python only writes the inputs and compares tags; the judgement is TLC's.)"""
+    # 3 x 5, rank 3: c0+c1+c2 = 0, c2+c3+c4 = 0
+    m = [[0], [1], [0, 1], [2], [0, 1, 2]]
+    good = {"op": "kernel_gauss", "nrows": 3, "ncols": 5, "m": m, "k": [[0, 1, 2], [2, 3, 4]], "priv": [0, 3]}
     out = []
 
-    def add(e, name, kind, tag):
-        if e is None:
-            raise core.ToolError("self-test: no recorded event suitable for tamper case %s" % name)
+    def add(name, kind, tag, **chg):
+        e = copy.deepcopy(good)
+        for f, v in chg.items():
+            if v is None:
+                e.pop(f, None)
+            else:
+                e[f] = v
         e["case"] = "selftest/" + name
-        e["expect"] = [kind, tag]
+        e["st_expect"] = [kind, tag]
         out.append(e)
 
-    g = lambda e: e["op"] == "kernel_gauss"
-    # 1 a vector outside the kernel: toggle a column with a non-empty row list in vector 0
-    e = pick(lambda e: g(e) and len(e["k"]) >= 2 and any(len(c) > 0 for c in e["m"]))
-    if e:
-        j = next(j for j, c in enumerate(e["m"]) if c)
-        v = set(e["k"][0])
-        v ^= {j}
-        e["k"][0] = sorted(v)
-        if not e["k"][0]:
-            e["k"][0] = [j]
-    add(e, "not-in-kernel", "strict", "kernel_gauss:nonzero-in-kernel")
-    # 2 a zero vector
-    e = pick(lambda e: g(e) and len(e["k"]) >= 1)
-    if e:
-        e["k"][0] = []
-        e.pop("priv", None)
-    add(e, "zero-vector", "strict", "kernel_gauss:nonzero-in-kernel")
-    # 3 index out of range
-    e = pick(lambda e: g(e) and len(e["k"]) >= 1)
-    if e:
-        e["k"][0] = e["k"][0] + [e["ncols"]]
-    add(e, "index-range", "strict", "kernel_gauss:index-range")
-    # 4 one vector missing: count clause (rank computed by the spec)
-    e = pick(lambda e: g(e) and len(e["k"]) >= 2 and "priv" in e)
-    if e:
-        e["k"].pop()
-        e["priv"].pop()
-    add(e, "count", "strict", "gauss:count")
-    # 5 dependent family with a dependency certificate: vector 0 replaced by the sum of vectors 1 and 2
-    e = pick(lambda e: g(e) and len(e["k"]) >= 3)
-    if e:
-        e["k"][0] = sorted(set(e["k"][1]) ^ set(e["k"][2]))
-        e.pop("priv", None)
-        e["dep"] = [0, 1, 2]
-    add(e, "dependent", "strict", "gauss:independent")
-    # 6 a wrong dependency certificate is a witness matter
-    e = pick(lambda e: g(e) and len(e["k"]) >= 2)
-    if e:
-        e.pop("priv", None)
-        e["dep"] = [0, 1]
-    add(e, "bad-dep", "witness", "dep-certificate")
-    # 7 a wrong private-coordinate certificate is a witness matter
-    e = pick(lambda e: g(e) and len(e["k"]) >= 2 and "priv" in e)
-    if e:
-        e["priv"][0] = e["priv"][1]
-    add(e, "bad-priv", "witness", "priv-certificate")
-    # 8 counter-witness: drop a vector and hand the full family in as witness
-    e = pick(lambda e: g(e) and len(e["k"]) >= 2 and "priv" in e)
-    if e:
-        e["wit"], e["wpriv"] = copy.deepcopy(e["k"]), list(e["priv"])
-        e["k"].pop()
-        e["priv"].pop()
-    add(e, "count-witness", "strict", "gauss:count-witness")
-    # 9 general (triangular) independence certificate accepted: no reject expected
-    e = pick(lambda e: g(e) and len(e["k"]) >= 2 and "priv" in e)
-    if e:
-        p = e.pop("priv")
-        e["tri"] = [{"combo": [i], "piv": p[i]} for i in range(len(p))]
-    add(e, "tri-ok", "none", "")
-    # 10 ... and a wrong one rejected as witness
-    e = pick(lambda e: g(e) and len(e["k"]) >= 2 and "priv" in e)
-    if e:
-        p = e.pop("priv")
-        e["tri"] = [{"combo": [i], "piv": p[0]} for i in range(len(p))]
-    add(e, "bad-tri", "witness", "tri-certificate")
-    # 11 panic
-    e = pick(g)
-    if e:
-        e.pop("k")
-        e["outcome"] = "panic"
-    add(e, "panic", "strict", "kernel_gauss:panic")
-    # 12 more columns than rows + kernel: bound clause (keep the matrix, drop all vectors)
-    e = pick(lambda e: g(e) and e["ncols"] > e["nrows"] and len(e["k"]) >= 1)
-    if e:
-        e["k"], e["priv"] = [], []
-    add(e, "count-bounds", "strict", "gauss:count-bounds")
-    # Lanczos events: the smallest recorded one, damaged the same way
-    lz = [x for x in evs if x["op"] == "kernel_lanczos" and "outcome" not in x and x.get("k")]
-    if lz:
-        base = min(lz, key=lambda x: x["ncols"])
-        e = copy.deepcopy(base)
-        j = next(j for j, c in enumerate(e["m"]) if c)
-        e["k"] = [sorted(set(e["k"][0]) ^ {j})] or [[j]]
-        add(e, "lanczos-not-in-kernel", "strict", "kernel_lanczos:nonzero-in-kernel")
-        e = copy.deepcopy(base)
-        e["k"] = [[]]
-        add(e, "lanczos-zero", "strict", "kernel_lanczos:nonzero-in-kernel")
+    add("valid", "none", "")
+    add("not-in-kernel", "strict", "kernel_gauss:nonzero-in-kernel", k=[[0, 1], [2, 3, 4]])
+    add("zero-vector", "strict", "kernel_gauss:nonzero-in-kernel", k=[[], [2, 3, 4]], priv=None)
+    add("index-range", "strict", "kernel_gauss:index-range", k=[[0, 1, 2, 5], [2, 3, 4]])
+    add("repeated-index", "witness", "repeated-index", k=[[0, 1, 2, 2], [2, 3, 4]])
+    add("count", "strict", "gauss:count", k=[[0, 1, 2]], priv=[0])
+    add("count-bounds", "strict", "gauss:count-bounds", k=[], priv=[])
+    add("dependent", "strict", "gauss:independent", k=[[0, 1, 2], [2, 3, 4], [0, 1, 3, 4]], priv=None, dep=[0, 1, 2])
+    add("bad-dep", "witness", "dep-certificate", priv=None, dep=[0, 1])
+    add("bad-priv", "witness", "priv-certificate", priv=[2, 3])
+    add("no-certificate", "witness", "no-independence-certificate", priv=None)
+    add("count-witness", "strict", "gauss:count-witness", k=[[0, 1, 2]], priv=[0], wit=[[0, 1, 2], [2, 3, 4]], wpriv=[0, 3])
+    add("bad-count-witness", "witness", "wit-certificate", k=[[0, 1, 2]], priv=[0], wit=[[0, 1, 2], [2, 3]], wpriv=[0, 3])
+    add("tri-ok", "none", "", priv=None, tri=[{"combo": [0, 1], "piv": 0}, {"combo": [1], "piv": 2}])
+    add("bad-tri", "witness", "tri-certificate", priv=None, tri=[{"combo": [0], "piv": 2}, {"combo": [1], "piv": 3}])
+    add("panic", "strict", "kernel_gauss:panic", k=None, priv=None, outcome="panic")
+    add("timeout", "drift", "kernel_gauss:timeout", k=None, priv=None, outcome="timeout")
+    add("bad-input", "witness", "input", m=[[0], [1], [0, 1], [2], [0, 1, 3]])
+    add("model-agrees", "none", "", expect=[[0, 1, 2], [2, 3, 4]])
+    add("model-differs", "drift", "gauss:model-result", expect=[[2, 3, 4], [0, 1, 2]])
+    add("lanczos-valid", "none", "", op="kernel_lanczos", priv=None, k=[[0, 1, 2], [0, 1, 2], [0, 1, 3, 4]])
+    add("lanczos-empty", "none", "", op="kernel_lanczos", priv=None, k=[])
+    add("lanczos-not-in-kernel", "strict", "kernel_lanczos:nonzero-in-kernel", op="kernel_lanczos", priv=None, k=[[0, 1, 2], [1, 3]])
+    add("lanczos-zero", "strict", "kernel_lanczos:nonzero-in-kernel", op="kernel_lanczos", priv=None, k=[[]])
+    add("lanczos-panic", "strict", "kernel_lanczos:panic", op="kernel_lanczos", priv=None, k=None, outcome="panic")
     return out
 
 
@@ -157,20 +97,30 @@ def run(chk, replay=None):
     shapes = os.path.join(w, "shapes.ndjson")
     nshapes, r = core.gen_shapes("gf2/Gf2Shapes.tla", "Gf2Shapes_%s.cfg" % chk.tier, shapes)
     chk.add_mc(r)
+    # (G) terminal behaviours of the model (every matrix of a few tiny dimensions + the model's result)
+    model = os.path.join(w, "model.ndjson")
+    beh = []
+    for cfg in EMIT:
+        r = core.model_check("gf2/Gf2Kernel.tla", cfg, workers=1, timeout=900)
+        chk.add_mc(r)
+        beh += [json.loads(t[1]) for t in core.tuples(r["out"], "REPLAY")]
+    if not beh:
+        raise core.ToolError("the model emitted no behaviours")
+    core.write_ndjson(model, beh)
     # (V) the real code
     trace = os.path.join(w, "trace.ndjson")
     outp = core.run_driver(["c14", "--seed", chk.seed, "--tier", chk.tier, "--reps", 5 if thorough else 3,
-                            "--mats", mats, "--shapes", shapes], trace, timeout=7000)
+                            "--mats", mats, "--model", model, "--shapes", shapes], trace, timeout=7000)
     drv = json.loads(outp.strip().splitlines()[-1])
     if replay:
         core.replay_filter(trace, replay)
         chk.notes.append("replay: kernel_lanczos draws system randomness, a replayed call need not return the same vectors")
-    res = core.validate_trace("gf2/Gf2Trace.tla", "Gf2Trace.cfg", trace, timeout=3000, weight=_weight, xmx="4g")
+    res = core.validate_trace("gf2/Gf2Trace.tla", "Gf2Trace.cfg", trace, timeout=3000, weight=_weight)
     chk.add_tv(res)
     evs = core.read_ndjson(trace)
     # vacuity self-test of the trace specification on damaged copies of recorded events
     if not replay:
-        tam = _tamper(evs)
+        tam = _selftest_events()
         tpath = os.path.join(w, "tamper.ndjson")
         core.write_ndjson(tpath, tam)
         tres = core.validate_trace("gf2/Gf2Trace.tla", "Gf2Trace.cfg", tpath, shards=1, tag="Gf2Trace-selftest")
@@ -178,12 +128,12 @@ def run(chk, replay=None):
         for rj in tres["rejects"]:
             got.setdefault(rj["i"], set()).add((rj["kind"], rj["tag"]))
         for i, e in enumerate(tam, 1):
-            kind, tag = e["expect"]
+            kind, tag = e["st_expect"]
             g = got.get(i, set())
             ok = (not g) if kind == "none" else ((kind, tag) in g)
             if not ok:
                 raise core.ToolError("trace spec self-test: %s expected %s/%s, TLC said %s" % (e["case"], kind, tag, sorted(g)))
-        chk.notes.append({"trace_spec_selftest": "%d damaged events, each rejected by the intended clause" % len(tam)})
+        chk.notes.append({"trace_spec_selftest": "%d hand-written events (valid and damaged), each judged by the intended clause" % len(tam)})
         chk.mc.append({"module": "Gf2Trace(selftest)", "cfg": "Gf2Trace.cfg", "generated": tres["states"],
                        "distinct": tres["states"], "wall_s": tres["wall_s"], "violated": []})
 
@@ -199,6 +149,7 @@ def run(chk, replay=None):
                 "Lanczos shape (128..%d rows, rank >= 100). Non-trivial = the call returned at least one vector; distinct by "
                 "(routine, matrix)." % (6000 if thorough else 3000, 5 if thorough else 3, 6000 if thorough else 3000))
     chk.cov["generated_matrices"] = nmats
+    chk.cov["model_behaviours_replayed"] = len(beh)
     chk.cov["shapes"] = nshapes
     chk.cov["lanczos_shapes_skipped_outside_domain"] = drv.get("lanczos_skipped_outside_domain", 0)
     ops, sizes, coranks, vecs = {}, {}, {}, {}
